@@ -34,8 +34,9 @@ CLAIM = {
             "ndarray / scalar encoding, 15 significant digits) is pandapower's and is an explicit assumption; the "
             "differential tie runs the real four storage paths on nets of every component type and compares exactly.",
     "note": "Theorems closed under the global context; the leaf law ldec (lenc v) = Some (quant v), quant idempotent, "
-            "are Section hypotheses (pandapower PPJSONEncoder/Decoder, pickle). Encrypted JSON is only run when the "
-            "`cryptography` module is importable, otherwise recorded as skipped.",
+            "are Section hypotheses (pandapower PPJSONEncoder/Decoder, pickle). Encrypted JSON (string, file name, file object; "
+            "`cryptography` is importable in this sandbox) is run and asserted not to be plain JSON; if the module were "
+            "missing the paths are recorded under skipped_paths.",
     "technique": "Coq proof over hand-written codec-layer model + facts generated from the AST + differential "
                  "round-trip on four storage paths",
     "design": "DESIGN.md 4/C15 + design_notes/C15.md",
